@@ -23,7 +23,7 @@ func init() {
 	register(&propDef{
 		ID: "C17",
 		Meta: propMeta{
-			Explanation: "Decides structural necessary conditions of ZIP agreement inside lib/zipslicer (nothing is executed): (R17a) for each of the 8 on-disk record structs the size encoding/binary gives it (sum of its fixed-width fields) equals the length constant the package uses to slice and seek for it (frozen pairing, e.g. zipLocalHeader<->fileHeaderLen=30), every struct that reaches binary.Read/Write in the package is in that pairing, and wherever records are decoded from a buffer of constant length the buffer is exactly as long as the records read from it (binary.Read errors are discarded there, a short buffer would silently yield zero fields); (R17b) every binary.Read/Write and ByteOrder call of the package is little-endian; (R17c) signature constants: every struct-signature comparison and every raw 4-byte comparison uses a constant that some writer stores into that record type, one constant per type, distinct between types except the two descriptor widths; (R17d) the three end-of-directory records are written and read in the on-disk order zip64End, zip64Loc, zipEndRecord, a ZIP64 end record is never written without its locator, and every writer's success paths end with the end record unless the caller asked for entries only; (R17e) a record is serialised only with its signature set: built in the function with the constant, or copied from a parsed directory behind a Signature!=0 test / a successful readLocalHeader / a receiver that every module caller obtained from the parser; (R17f) every conversion of a 64-bit size, offset or count to a 32/16-bit record field is preceded on every path by a comparison of that quantity (the ZIP64 threshold test) or overwritten by the sentinel on the path that skipped it; (R17g) data-position arithmetic adds exactly the local-header size to the name and extra lengths, and directory-entry arithmetic exactly the central-header size; (R17h) an io.Writer/io.Reader parameter that the function itself compares with nil is never used on a path where it can be nil; (R17i) in NewFile, on every path from a site that copies the raw contents into the member the recorded method is Store, and from the site that deflates them it is Deflate (phi-resolved along each path); (R17j) single-pass discipline in every module function: after a member's data descriptor or total size has been queried (GetTotalSize, GetDataDescriptor, Directory.AddFile) nothing opens, digests, dumps or hands that member to a MangleFunc callback within the same iteration; (R17k) a 32-bit size/offset field of a ZIP record is compared with a 64-bit value only behind a test of that field against 0xffffffff (zero instances today; positive control testdata/ctl/zipctl); (R17l) NewFile writes the 64-bit data descriptor for members of every size, so it must mark them (version needed 45) and readDataDesc must consult that mark when choosing the layout; (R17m) File.raw, the cache of an entry's original bytes that copies of a File share with the source directory, is never written through (no element store, PutUintN or copy into it outside the function that allocates it). (R17n) ZipToTarSize writes zipdir.bin with the length X - dirLoc and contents.zip with the same X, so both end at one offset; (R17o) FindDirectory reads the ZIP64 end record only behind a test that a field of the classic end record is saturated; (R17p) no function reachable from GetOriginalDirectory stores into a field of the Directory it was given. (R17s) no ReadAt method of the module returns the count of a single, unlooped Read of a stream into its buffer; (R17t) no append in lib/zipslicer has as its first argument a field that some function fills with a two-index slice of another buffer (name, extra, comment: views into the directory); (R17u) no addition or multiplication of two non-constant 8- or 16-bit unsigned values is converted to a wider type afterwards. (R17q) the value Truncate stores into an end record's CDOffset does not pass through a phi that merges the sides of a nil test of the optional body writer; (R17r) readLocalHeader fills lfhName and lfhExtra with buffers sized by the local header's own FilenameLen / ExtraLen, never with the central directory's Name / Extra.",
+			Explanation: "Decides structural necessary conditions of ZIP agreement inside lib/zipslicer (nothing is executed): (R17a) for each of the 8 on-disk record structs the size encoding/binary gives it (sum of its fixed-width fields) equals the length constant the package uses to slice and seek for it (frozen pairing, e.g. zipLocalHeader<->fileHeaderLen=30), every struct that reaches binary.Read/Write in the package is in that pairing, and wherever records are decoded from a buffer of constant length the buffer is exactly as long as the records read from it (binary.Read errors are discarded there, a short buffer would silently yield zero fields); (R17b) every binary.Read/Write and ByteOrder call of the package is little-endian; (R17c) signature constants: every struct-signature comparison and every raw 4-byte comparison uses a constant that some writer stores into that record type, one constant per type, distinct between types except the two descriptor widths; (R17d) the three end-of-directory records are written and read in the on-disk order zip64End, zip64Loc, zipEndRecord, a ZIP64 end record is never written without its locator, and every writer's success paths end with the end record unless the caller asked for entries only; (R17e) a record is serialised only with its signature set: built in the function with the constant, or copied from a parsed directory behind a Signature!=0 test / a successful readLocalHeader / a receiver that every module caller obtained from the parser; (R17f) every conversion of a 64-bit size, offset or count to a 32/16-bit record field is preceded on every path by a comparison of that quantity (the ZIP64 threshold test) or overwritten by the sentinel on the path that skipped it; (R17g) data-position arithmetic adds exactly the local-header size to the name and extra lengths, and directory-entry arithmetic exactly the central-header size; (R17h) an io.Writer/io.Reader parameter that the function itself compares with nil is never used on a path where it can be nil; (R17i) in NewFile, on every path from a site that copies the raw contents into the member the recorded method is Store, and from the site that deflates them it is Deflate (phi-resolved along each path); (R17j) single-pass discipline in every module function: after a member's data descriptor or total size has been queried (GetTotalSize, GetDataDescriptor, Directory.AddFile) nothing opens, digests, dumps or hands that member to a MangleFunc callback within the same iteration; (R17k) a 32-bit size/offset field of a ZIP record is compared with a 64-bit value only behind a test of that field against 0xffffffff (zero instances today; positive control testdata/ctl/zipctl); (R17l) NewFile writes the 64-bit data descriptor for members of every size, so it must mark them (version needed 45) and readDataDesc must consult that mark when choosing the layout; (R17m) File.raw, the cache of an entry's original bytes that copies of a File share with the source directory, is never written through (no element store, PutUintN or copy into it outside the function that allocates it). (R17n) ZipToTarSize writes zipdir.bin with the length X - dirLoc and contents.zip with the same X, so both end at one offset; (R17o) FindDirectory reads the ZIP64 end record only behind a test that a field of the classic end record is saturated; (R17p) no function reachable from GetOriginalDirectory stores into a field of the Directory it was given. (R17s) no ReadAt method of the module returns the count of a single, unlooped Read of a stream into its buffer; (R17t) no append in lib/zipslicer has as its first argument a field that some function fills with a two-index slice of another buffer (name, extra, comment: views into the directory); (R17u) no addition or multiplication of two non-constant 8- or 16-bit unsigned values is converted to a wider type afterwards. (R17v) the Directory an APK digest keeps for its signing step has every override of DirLoc undone (a value read before the override stored back) on every path to a successful return, and is not a helper-made copy whose DirLoc was overridden. (R17q) the value Truncate stores into an end record's CDOffset does not pass through a phi that merges the sides of a nil test of the optional body writer; (R17r) readLocalHeader fills lfhName and lfhExtra with buffers sized by the local header's own FilenameLen / ExtraLen, never with the central directory's Name / Extra.",
 			NotDecided:  "agreement of member lists, CRCs and decompressed contents with archive/zip or Python zipfile on real archives; the descriptor-width inference of readDataDesc on third-party archives (R17l only decides that relic can tell the layouts of what it writes itself apart); byte-exact re-emission; name/extra/comment lengths above 65535 in NewFile (caller-supplied, conversions from len() are exempt from R17f).",
 			Assumptions: []string{"encoding/binary encodes fixed-size structs field by field without padding", "reader implementations passed to zipslicer return data or an error (io contracts)"},
 		},
